@@ -66,14 +66,9 @@ void gf128_print_bits(gf128_t a)
 int gf128_print(FILE *fp, int fmt, int ind, const char *label, const gf128_t a)
 {
 	uint8_t be[16];
-	int i;
 
-	printf("%s: ", label);
 	gf128_to_bytes(a, be);
-	for (i = 0; i < 16; i++) {
-		printf("%02x", be[i]);
-	}
-	printf("\n");
+	format_bytes(fp, fmt, ind, label, be, 16);
 	return 1;
 }
 
